@@ -3,7 +3,10 @@
 package c10
 
 import (
+	"encoding/json"
 	"fmt"
+	"os"
+	"os/exec"
 	"strings"
 	"sync"
 	"sync/atomic"
@@ -141,6 +144,62 @@ func (altNil) Equal(other slip.Object) bool                { _, ok := other.(alt
 func (altNil) Hierarchy() []slip.Symbol                    { return []slip.Symbol{slip.TrueSymbol} }
 func (o altNil) Eval(s *slip.Scope, depth int) slip.Object { return o }
 
+// gateObj is an argument that can park the routine that dispatches on it: when armed, its k-th
+// Hierarchy() call (the first is the cache key, the others come from the nested walk of
+// collectMethods - one per class of the argument before it) signals `entered` and waits for
+// `proceed`. The harness uses it to put a defmethod / remove-method of another routine at a known
+// point of a call's method lookup.
+type gateObj struct {
+	alt     bool
+	mu      sync.Mutex
+	at      int // 0: not armed
+	calls   int
+	entered chan struct{}
+	proceed chan struct{}
+}
+
+func (o *gateObj) String() string {
+	if o.alt {
+		return "#<vgate2>"
+	}
+	return "#<vgate>"
+}
+func (o *gateObj) Append(b []byte) []byte                    { return append(b, o.String()...) }
+func (o *gateObj) Simplify() any                             { return o.String() }
+func (o *gateObj) Equal(other slip.Object) bool              { return o == other }
+func (o *gateObj) Eval(s *slip.Scope, depth int) slip.Object { return o }
+func (o *gateObj) arm(at int) {
+	o.mu.Lock()
+	o.at, o.calls = at, 0
+	o.entered, o.proceed = make(chan struct{}), make(chan struct{})
+	o.mu.Unlock()
+}
+func (o *gateObj) disarm() {
+	o.mu.Lock()
+	o.at = 0
+	o.mu.Unlock()
+}
+func (o *gateObj) Hierarchy() []slip.Symbol {
+	o.mu.Lock()
+	park := false
+	if o.at > 0 {
+		o.calls++
+		park = o.calls == o.at
+	}
+	entered, proceed := o.entered, o.proceed
+	o.mu.Unlock()
+	if park {
+		close(entered)
+		select {
+		case <-proceed:
+		case <-time.After(10 * time.Second):
+		}
+	}
+	return []slip.Symbol{"vgate", "integer", "rational", "real", "number", "t"}
+}
+
+var gates = [2]*gateObj{{}, {alt: true}}
+
 type argObj struct {
 	expr string // the main object of the class
 	alt  string // the alternate object
@@ -159,7 +218,10 @@ type opRec struct {
 	Args  []string `json:"args,omitempty"`             // classes of the call arguments
 	Var   []bool   `json:"variant,omitempty"`          // which object of each class
 	Lisp  string   `json:"lisp"`
-	Par   []opRec  `json:"concurrent_defs,omitempty"` // kind "par": defmethods issued while another routine keeps calling
+	Par   []opRec  `json:"concurrent_defs,omitempty"` // kind "par": defmethods issued while another routine keeps calling; kind "gated": the one operation of the other routine
+	GateAt  int    `json:"gate_at,omitempty"`      // kind "gated": the call is parked at this Hierarchy() call of its last argument
+	Entered bool   `json:"parked,omitempty"`       // the call reached that point
+	BFirst  bool   `json:"other_returned_while_parked,omitempty"`
 	Trace []tev    `json:"trace,omitempty"`
 	Res   string   `json:"result,omitempty"`
 }
@@ -234,7 +296,36 @@ func genBody(ctx *common.Ctx, r *opRec, n int) {
 	ctx.Hist(fmt.Sprintf("body:%s:calls=%d", map[string]string{"": "primary", ":around": "around"}[r.Qual], k))
 }
 
+// Run drives the implementation in a child process (the same binary, VERIF_C10_INNER set) and
+// adopts what it wrote: the routines of the concurrent segments work on Go maps, and when a
+// change of the locking lets two of them meet there the Go runtime stops the whole process
+// ("fatal error: concurrent map read and map write"). The parent then reports that as a violation
+// and runs the child again without the free-running segments (the forced schedules remain).
 func Run(ctx *common.Ctx) {
+	if os.Getenv("VERIF_C10_INNER") == "" {
+		se, err := runInner(ctx, false)
+		var crash string
+		if err != nil {
+			crash = err.Error() + "\n" + se
+			if se2, err2 := runInner(ctx, true); err2 != nil {
+				panic("C10: the harness child failed twice: " + err2.Error() + "\n" + se2)
+			}
+		}
+		data, rerr := os.ReadFile(ctx.OutDir + "/meta.json")
+		if rerr == nil {
+			rerr = json.Unmarshal(data, &ctx.Meta)
+		}
+		if rerr != nil {
+			panic("C10: cannot read the child's meta.json: " + rerr.Error())
+		}
+		if crash != "" {
+			ctx.Violate("the process stopped while routines called a generic function and defined methods at the same time "+
+				"(a fatal error of the Go runtime is not a Lisp condition)",
+				"histories with concurrent segments: routine A repeats a call whose first argument has a slow Hierarchy() while routine B evaluates defmethod forms",
+				crash, "every operation answers")
+		}
+		return
+	}
 	defineVtr()
 	scope := slip.NewScope()
 	o := common.EvalIn(scope, `(defclass vc1 () ()) (defclass vc2 (vc1) ()) (defclass vc3 (vc2) ()) (defclass vc4 (vc3) ())
@@ -247,8 +338,10 @@ func Run(ctx *common.Ctx) {
 	scope.Let(slip.Symbol("*vslow*"), slowObj{})
 	scope.Let(slip.Symbol("*vslow2*"), slowObj{alt: true})
 	scope.Let(slip.Symbol("*vnil2*"), altNil{})
+	scope.Let(slip.Symbol("*vgate*"), gates[0])
+	scope.Let(slip.Symbol("*vgate2*"), gates[1])
 	for _, e := range [][2]string{{"1", "2"}, {"1/2", "1/3"}, {"1.5", "2.5"}, {`"s"`, `"r"`}, {"*vi2*", "*vi2b*"}, {"*vi4*", "*vi4b*"},
-		{"nil", "*vnil2*"}, {"100000000000000000000", "100000000000000000001"}, {"*vslow*", "*vslow2*"}} {
+		{"nil", "*vnil2*"}, {"100000000000000000000", "100000000000000000001"}, {"*vgate*", "*vgate2*"}, {"*vslow*", "*vslow2*"}} {
 		v := common.EvalIn(scope, e[0])
 		w := common.EvalIn(scope, e[1])
 		if v.Err != "" || w.Err != "" {
@@ -286,7 +379,7 @@ func Run(ctx *common.Ctx) {
 	}
 	ct := common.GList(ctItems)
 	specs := []string{"t", "number", "real", "rational", "integer", "fixnum", "ratio", "float", "double-float",
-		"string", "vc1", "vc2", "vc3", "vc4", "bignum", "vslow"}
+		"string", "vc1", "vc2", "vc3", "vc4", "bignum", "vslow", "vgate"}
 
 	ncases := 400
 	if ctx.Thorough() {
@@ -392,6 +485,109 @@ func Run(ctx *common.Ctx) {
 				slowOn.Store(false)
 				r.Lisp = "concurrently: routine A repeats " + callSrc + " while routine B evaluates the concurrent_defs"
 				continue
+			case "gated":
+				// routine A calls with a gate object as last argument and is parked in the middle of
+				// its method lookup; routine B then issues one defmethod / remove-method. On a correct
+				// tree B waits for the mutex (we give it 150 ms, then let A go on): order A, B. When B
+				// returns while A is parked the order is B, A. Either way the calls that follow must
+				// see B's change: the model gets the operations in that order.
+				idx := len(gops)
+				b := &r.Par[0]
+				if b.Kind == "def" {
+					defLisp(b)
+				} else {
+					ql := "nil"
+					if b.Qual != "" {
+						ql = "'(" + b.Qual + ")"
+					}
+					b.Lisp = fmt.Sprintf("(let ((m (find-method '%s %s '(%s)))) (if m (remove-method '%s m) nil))", g, ql,
+						strings.Join(b.Key, " "), g)
+					gops = append(gops, fmt.Sprintf("OpRemove %s %s", gq[b.Qual], common.GStrs(b.Key)))
+					gobs = append(gobs, "None")
+				}
+				var exprs, vs []string
+				for j, c := range r.Args {
+					for _, a := range pool {
+						if a.cls == c {
+							if r.Var[j] {
+								exprs = append(exprs, a.alt)
+							} else {
+								exprs = append(exprs, a.expr)
+							}
+							break
+						}
+					}
+					vs = append(vs, common.GBool(r.Var[j]))
+				}
+				r.Lisp = fmt.Sprintf("(%s %s)", g, strings.Join(exprs, " "))
+				gate := gates[0]
+				if r.Var[len(r.Var)-1] {
+					gate = gates[1]
+				}
+				gate.arm(r.GateAt)
+				sa, sb := scope.NewScope(), scope.NewScope()
+				k := &sink{}
+				sa.Let(slip.Symbol(sinkVar), k)
+				callDone := make(chan common.Outcome, 1)
+				bDone := make(chan common.Outcome, 1)
+				go func() { callDone <- common.EvalIn(sa, r.Lisp) }()
+				var out, bout common.Outcome
+				haveCall := false
+				select {
+				case <-gate.entered:
+					r.Entered = true
+				case out = <-callDone:
+					haveCall = true
+				case <-time.After(5 * time.Second):
+				}
+				go func() { bDone <- common.EvalIn(sb, b.Lisp) }()
+				if r.Entered {
+					select {
+					case bout = <-bDone:
+						r.BFirst = true
+					case <-time.After(150 * time.Millisecond):
+					}
+					close(gate.proceed)
+				}
+				if !haveCall {
+					select {
+					case out = <-callDone:
+					case <-time.After(5 * time.Second):
+						out = common.Outcome{Err: "timeout"}
+						timedOut = true
+					}
+				}
+				if !r.BFirst {
+					select {
+					case bout = <-bDone:
+					case <-time.After(5 * time.Second):
+						bout = common.Outcome{Err: "timeout"}
+						timedOut = true
+					}
+				}
+				gate.disarm()
+				if bout.Err != "" {
+					b.Res = "!" + bout.Err + ": " + bout.Msg
+					gobs[idx] = "(Some ([], ROther))"
+				}
+				r.Trace = append([]tev{}, k.tr...)
+				res, shown := resultOf(out)
+				r.Res = shown
+				gops = append(gops, "OpCall "+common.GStrs(r.Args)+" "+common.GList(vs))
+				gobs = append(gobs, fmt.Sprintf("(Some (%s, %s))", common.GList(gallinaTrace(r.Trace)), res))
+				if !r.BFirst {
+					gops[idx], gops[idx+1] = gops[idx+1], gops[idx]
+					gobs[idx], gobs[idx+1] = gobs[idx+1], gobs[idx]
+				}
+				switch {
+				case r.BFirst:
+					ctx.Hist("gated:other-routine-returned-while-the-call-was-parked")
+				case r.Entered:
+					ctx.Hist("gated:other-routine-waited-for-the-call")
+				default:
+					ctx.Hist("gated:call-not-parked")
+				}
+				continue
 			case "def":
 				defLisp(r)
 			case "remove":
@@ -485,6 +681,33 @@ func Run(ctx *common.Ctx) {
 		}
 		return k
 	}
+	runAndStore := func(n int, recs []opRec) {
+		term, recs, to := runHistory(n, recs)
+		if to {
+			ctx.Hist("timeout-history")
+		}
+		ctx.Meta.Evaluations++
+		sig := term
+		if i := strings.Index(sig, "k_ops"); i >= 0 {
+			sig = sig[i:]
+		}
+		calls := 0
+		for _, r := range recs {
+			if r.Kind == "call" || r.Kind == "gated" {
+				calls++
+			}
+			ctx.Hist("op:" + r.Kind)
+		}
+		if !distinct[sig] && calls > 0 {
+			distinct[sig] = true
+		}
+		terms = append(terms, term)
+		descs = append(descs, map[string]any{"generic_arity": n, "ops": recs})
+		if len(terms)%97 == 1 || (len(recs) > 0 && len(terms)%5 == 0 && strings.Contains(term, "vgate") && len(ctx.Meta.Samples) < 8) {
+			ctx.Sample(map[string]any{"generic_arity": n, "ops": recs})
+		}
+	}
+	safe := os.Getenv("VERIF_C10_SAFE") != ""
 	for len(terms) < ncases {
 		n := 1 + ctx.Rng.Intn(2)
 		L := 3 + ctx.Rng.Intn(12)
@@ -499,7 +722,7 @@ func Run(ctx *common.Ctx) {
 		var recs []opRec
 		var defined [][2]string // (qual, key joined)
 		id := 0
-		concurrent := ctx.Rng.Chance(30)
+		concurrent := ctx.Rng.Chance(30) && !safe
 		// the mix of qualifiers of a history: even, mostly :around methods (so that three and more
 		// are applicable to one call), or mostly primaries (chains of call-next-method)
 		mix := [3]int{40, 62, 84}
@@ -603,30 +826,82 @@ func Run(ctx *common.Ctx) {
 				}
 			}
 		}
-		term, recs, to := runHistory(n, recs)
-		if to {
-			ctx.Hist("timeout-history")
-		}
-		ctx.Meta.Evaluations++
-		sig := term
-		if i := strings.Index(sig, "k_ops"); i >= 0 {
-			sig = sig[i:]
-		}
-		calls := 0
-		for _, r := range recs {
-			if r.Kind == "call" {
-				calls++
+		runAndStore(n, recs)
+	}
+	// histories with a forced schedule: a call parked in the middle of its method lookup while
+	// another routine defines or removes a method the lookup has already passed. The calls that
+	// follow must see the change (a method list computed before it must not be in the cache).
+	ngated := 12
+	if ctx.Thorough() {
+		ngated = 120
+	}
+	gatePool := pool[len(pool)-2]
+	for h := 0; h < ngated; h++ {
+		var first argObj
+		for {
+			first = common.Pick(ctx.Rng, pool)
+			if len(first.hier) >= 2 && first.cls != "vgate" && first.cls != "vslow" {
+				break
 			}
-			ctx.Hist("op:" + r.Kind)
 		}
-		if !distinct[sig] && calls > 0 {
-			distinct[sig] = true
+		id := 0
+		var recs []opRec
+		var defined [][2]string
+		randKey := func(maxFirst int) []string {
+			return []string{first.hier[ctx.Rng.Intn(maxFirst)], common.Pick(ctx.Rng, gatePool.hier)}
 		}
-		terms = append(terms, term)
-		descs = append(descs, map[string]any{"generic_arity": n, "ops": recs})
-		if len(terms)%97 == 1 {
-			ctx.Sample(map[string]any{"generic_arity": n, "ops": recs})
+		randDef := func(maxFirst int) opRec {
+			id++
+			q := common.Pick(ctx.Rng, []string{"", "", ":before", ":after", ":around"})
+			rec := opRec{Kind: "def", Qual: q, Key: randKey(maxFirst), ID: id}
+			genBody(ctx, &rec, 2)
+			defined = append(defined, [2]string{q, strings.Join(rec.Key, "|")})
+			return rec
 		}
+		if ctx.Rng.Chance(85) {
+			id++
+			recs = append(recs, opRec{Kind: "def", Qual: "", Key: []string{"t", "t"}, ID: id})
+			defined = append(defined, [2]string{"", "t|t"})
+		}
+		for i := 0; i < ctx.Rng.Intn(4); i++ {
+			recs = append(recs, randDef(len(first.hier)))
+		}
+		args := []string{first.cls, "vgate"}
+		for seg := 0; seg < 1+ctx.Rng.Intn(2); seg++ {
+			// a definition right before: the cache is empty, the call has to walk
+			recs = append(recs, randDef(len(first.hier)))
+			vr := []bool{ctx.Rng.Chance(30), ctx.Rng.Chance(30)}
+			// parked at Hierarchy() call number at of the gate: the first at-2 classes of the first
+			// argument have been looked up
+			walked := 1 + ctx.Rng.Intn(min(len(first.hier)-1, 5))
+			var b opRec
+			if ctx.Rng.Chance(35) {
+				// remove a method the walk has passed, if there is one
+				var cand [][2]string
+				for _, d := range defined {
+					k := strings.Split(d[1], "|")
+					for w := 0; w < walked; w++ {
+						if first.hier[w] == k[0] {
+							cand = append(cand, d)
+						}
+					}
+				}
+				if len(cand) > 0 {
+					d := common.Pick(ctx.Rng, cand)
+					b = opRec{Kind: "remove", Qual: d[0], Key: strings.Split(d[1], "|")}
+				}
+			}
+			if b.Kind == "" {
+				b = randDef(walked)
+			}
+			recs = append(recs, opRec{Kind: "gated", Args: args, Var: vr, GateAt: walked + 2, Par: []opRec{b}})
+			recs = append(recs, opRec{Kind: "call", Args: args, Var: vr})
+			if ctx.Rng.Chance(50) {
+				recs = append(recs, opRec{Kind: "call", Args: args, Var: []bool{!vr[0], vr[1]}})
+			}
+		}
+		ctx.Hist("history:gated")
+		runAndStore(2, recs)
 	}
 	ctx.Meta.DistinctNontrivial = len(distinct)
 	ctx.Meta.Rule = "random histories (3..14 ops) of defmethod (4 qualifiers x specializer tuples over 16 classes; primary and :around bodies " +
@@ -640,4 +915,26 @@ func Run(ctx *common.Ctx) {
 	ctx.WriteShards("cases", header, "case", footer, terms, descs, 16)
 	runConcurrent(ctx)
 	ctx.ReplayKnownLisp()
+}
+
+func runInner(ctx *common.Ctx, safe bool) (string, error) {
+	exe, err := os.Executable()
+	if err != nil {
+		return "", err
+	}
+	_ = os.Remove(ctx.OutDir + "/meta.json")
+	cmd := exec.Command(exe, os.Args[1:]...)
+	cmd.Env = append(os.Environ(), "VERIF_C10_INNER=1")
+	if safe {
+		cmd.Env = append(cmd.Env, "VERIF_C10_SAFE=1")
+	}
+	var stderr strings.Builder
+	cmd.Stderr = &stderr
+	cmd.Stdout = os.Stdout
+	err = cmd.Run()
+	se := stderr.String()
+	if len(se) > 2500 {
+		se = se[:2500]
+	}
+	return se, err
 }
